@@ -57,3 +57,13 @@ Print Assumptions c15_close_is_last.
    between two writes, followed by a pipelined GET answered with Content-Length, then a closing request *)
 Example c15_example : c15_example_stmt.
 Proof. exact c15_example_holds. Qed.
+
+(* the response HEAD at byte level: the status line "HTTP/maj.min code OK" and the header block as WriteHeader
+   prints them are read back exactly (status, every header name and value, and the position where the body
+   starts) for all numbers and all well-formed headers (name non-empty without colon / CR, value without CR
+   and not starting with a space) *)
+From GN Require Import Model.HttpHead Proof.HttpHead_proofs.
+Theorem c15_head_roundtrip : forall maj min code hs rest, forallb wf_header hs = true ->
+  parse_head (emit_head maj min code hs ++ rest) = Some (maj, min, code, hs, rest).
+Proof. exact head_roundtrip. Qed.
+Print Assumptions c15_head_roundtrip.
